@@ -25,6 +25,9 @@ type C13Case struct {
 	//   relative-approved / relative-tampered  a relative Cmd.Path (Cmd.Dir unset, resolved against the host's cwd)
 	//   argv0-approved / argv0-tampered     a relative Cmd.Path to the named file, with an argv[0] that names the other
 	//                                       file by its absolute path (the kernel runs Cmd.Path, argv[0] is only a name)
+	//   barename-approved / barename-tampered  a bare command name in a hand-built Cmd: the named file is the one of
+	//                                       that name in the host's working directory (which exec runs), the other
+	//                                       one has the same name in a directory at the front of PATH
 	PathKind string `json:"pathKind,omitempty"`
 	// ViaRunner: the client is configured with a RunnerFunc (no Cmd) and this SecureConfig. There is no
 	// file go-plugin could hash: nothing may be launched (the RunnerFunc must not even be invoked)
